@@ -17,7 +17,10 @@ pub fn observe(s: &str) -> J {
     let owned = s.to_string();
     match guarded(move || verif_hooks::tokenize(&owned)) {
         Err(msg) => json!({"ok": false, "panic": true, "msg": msg, "toks": []}),
-        Ok(Err(_)) => json!({"ok": false, "panic": false, "toks": []}),
+        Ok(Err(e)) => {
+            let d = format!("{:?}", e);
+            json!({"ok": false, "panic": false, "toks": [], "evariant": d.split(|c: char| !(c.is_alphanumeric() || c == '_')).next().unwrap_or("")})
+        }
         Ok(Ok(toks)) => {
             let arr: Vec<J> = toks
                 .iter()
@@ -85,9 +88,16 @@ pub fn history(args: &[String]) {
 fn replay_file(path: &str, out: &mut Out, stage: &str) {
     let recs = read_ndjson(path);
     let (mut n, mut bad, mut dcs, mut errs) = (0u64, 0u64, 0u64, 0u64);
+    // informational: which Error variant a lexical rejection carries (no listed property fixes it: drift, not a violation)
+    let (mut variant_agree, mut variant_differ) = (0u64, 0u64);
     for (idx, r) in recs.iter().enumerate() {
         let s = cps_to_string(r["chars"].as_array().unwrap());
         let got = observe(&s);
+        if let (Some(a), Some(b)) = (r.get("evariant").and_then(|v| v.as_str()), got.get("evariant").and_then(|v| v.as_str())) {
+            if !a.is_empty() && !r["dc"].as_bool().unwrap_or(false) {
+                if a == b { variant_agree += 1 } else { variant_differ += 1 }
+            }
+        }
         n += 1;
         if r["dc"].as_bool().unwrap_or(false) {
             dcs += 1;
@@ -126,7 +136,7 @@ fn replay_file(path: &str, out: &mut Out, stage: &str) {
             out.line(&json!({"mismatch": idx, "stage": stage, "why": w, "input": s, "chars": r["chars"], "expected": {"ok": r["ok"], "toks": r["toks"]}, "got": got}));
         }
     }
-    out.line(&json!({"summary": {"replayed": n, "mismatches": bad, "dontcare": dcs, "expected_err": errs, "stage": stage}}));
+    out.line(&json!({"summary": {"replayed": n, "mismatches": bad, "dontcare": dcs, "expected_err": errs, "stage": stage, "variant_agree": variant_agree, "variant_differ": variant_differ}}));
 }
 
 const WORDS: &[&str] = &[
